@@ -66,6 +66,8 @@ def enc_const(c):
     k, v = c
     if k == "s":
         return 1, struct.pack(">i", len(v) + 1) + v + b"\0"
+    if k == "t":      # string whose counted last byte (the terminator slot) is given explicitly: v = content + slot byte
+        return 1, struct.pack(">i", len(v)) + v
     if k == "i":
         return 4, None
     if k == "f":
